@@ -139,7 +139,8 @@ func (s *sharedEntryAttributes) NavigateLeafRef(ctx context.Context) ([]Entry, e
 
 		r, err := e.getHighestPrecedenceLeafValue(ctx)
 		if err != nil {
-			return nil, err
+			// a candidate that has no value (e.g. it is deleted by this transaction) cannot be the target
+			continue
 		}
 		val, err := r.Update.Value()
 		if err != nil {
